@@ -256,13 +256,15 @@ def run_unit(unit, tier):
                     data = b''.join(SEC[x][0] for x in seq)
                     recs, exc, r, gen = read_all(data, limit=len(seq))
                     key = (freeze_reader(r, gen), seq[-1])
-                    if key not in seen and len(seq) < 20:
+                    if key not in seen and len(seq) < 20 and \
+                            len(seen) < 300:
                         seen[key] = seq
                         nxt.append(seq)
+                    acc.outcome('graph-transition')
             frontier = nxt
         acc.states = len(seen)
         acc.extra = {'reader_graph_states': len(seen),
-                     'reader_graph_closed': True}
+                     'reader_graph_closed': len(seen) < 300}
         acc.sample({'reader_state_graph_states': len(seen)}, 1)
     return acc
 
